@@ -314,6 +314,8 @@ def check_index(ctx, case):
             holes = [tuple(h) for h in args.get('holes', [])]
             if args['form'] == 'corr2d':
                 singles = np.empty((N, N), dtype=object)
+                if any(all(a.content[t] is None or (i, j, t) in holes for t in range(T)) for i in range(N) for j in range(N)):
+                    return probs         # an entry without any defined timeslice cannot be built in the first place
                 for i in range(N):
                     for j in range(N):
                         singles[i, j] = pe.Corr([None if (a.content[t] is None or (i, j, t) in holes) else a.content[t][i, j] for t in range(T)])
@@ -333,6 +335,26 @@ def check_index(ctx, case):
             a = res                      # (compared below against `exp`; the operand of this "method" is the array)
             sa = snap_obs(a)
             T = res.T
+        elif m in ('real', 'imag'):
+            # real and imaginary part, timeslice by timeslice; a real correlator has itself as real part and zero as imaginary part
+            res = getattr(a, m)
+            if case['a'].get('cplx'):
+                exp = [None if x is None else np.asarray([getattr(x[0], m)]) for x in a.content]
+            elif m == 'real':
+                exp = list(a.content)
+            else:
+                exp = [None if x is None else x * 0 for x in a.content]
+        elif m == 'getitem':
+            # indexing a single-valued correlator gives the observable itself, a matrix-valued one its matrix
+            res = None
+            for t in range(T):
+                g = a[t]
+                e = a.content[t]
+                same_ = (g is None and e is None) or (e is not None and (g is e[0] if N == 1 else g is e))
+                if not same_:
+                    probs.append(('violation', 'index-entry-getitem', 't=%d' % t))
+                    break
+            return probs
         elif m == 'roll':
             res = a.roll(args['dt'])
             exp = [a.content[(t - args['dt']) % T] for t in range(T)]
@@ -554,8 +576,11 @@ def gen_case(ctx):
         if f == 'arccosh':
             lo, hi = (0.6, 2.5)
         return {'kind': 'func', 'a': gen_corr(rng, lo=lo, hi=hi), 'f': f}
-    m = rng.choice(['roll', 'reverse', 'thin', 'symmetric', 'anti_symmetric', 'T_symmetry', 'item', 'trace', 'matrix_symmetric', 'projected', 'hankel', 'hankel', 'repr', 'ctor'])
-    if m in ('item', 'trace', 'matrix_symmetric', 'projected', 'ctor'):
+    m = rng.choice(['roll', 'reverse', 'thin', 'symmetric', 'anti_symmetric', 'T_symmetry', 'item', 'trace', 'matrix_symmetric', 'projected', 'hankel', 'hankel', 'repr', 'ctor', 'real', 'imag', 'getitem'])
+    if m in ('real', 'imag'):
+        cp = rng.random() < 0.6
+        a = gen_corr(rng, cplx=cp)
+    elif m in ('item', 'trace', 'matrix_symmetric', 'projected', 'ctor'):
         a = gen_corr(rng, N=rng.choice([2, 3]))
     elif m in ('symmetric', 'anti_symmetric', 'T_symmetry', 'hankel', 'repr'):
         a = gen_corr(rng, N=1, T=rng.choice([2, 4, 6, 8, 10, 12, 16, 5, 7]))
